@@ -181,6 +181,7 @@ def run(cx):
         cx.ob("C10.R2", "sqlite:%s:count-unpaged" % c, not bad and len(lim) >= 2,
               "SQLite query of `%s`: limit/offset are applied to the row statement only" % c, f.loc())
 
+    r2_sqlite_count_source(cx)
     cx.floor("C10.R1a", 50)
     cx.floor("C10.R1b", 50)
     cx.floor("C10.R1c", 50)
@@ -195,7 +196,7 @@ def run(cx):
     r3_sentinel(cx)
     r4_order(cx)
     r5_ops(cx)
-    cx.floor("C10.R2", 14)
+    cx.floor("C10.R2", 20)
     cx.floor("C10.R3", 2)
     cx.floor("C10.R5", 8)
 
@@ -509,3 +510,56 @@ def _from_doc(f, pv, r, depth=0):
 
 def T_try(q):
     return q.endswith("Try>::branch") or q.endswith("::unwrap") or q.endswith("::expect")
+
+
+
+def r2_sqlite_count_source(cx):
+    """the reported total of every SQLite query is, on every path, the value read from the count statement (the one
+    that received the filter and no limit) - never a number derived from the page"""
+    m = cx.m
+    pv = Prov(m, "value")
+    pa = Prov(m, "alias")
+    for f in m.find(r"^<acts_store_sqlite::collection::.* as acts::DbCollection>::query$"):
+        c = f.q.split("::")[2]
+        aggs = list(_aggs_by_variant(f, "PageData"))
+        if len(aggs) != 1:
+            raise Anchor("SQLite query of %s: expected one PageData literal" % c)
+        _, _, ops = aggs[0]
+        r = pv.root(f, ops["count"])
+        chain = []
+        ok = False
+        for _ in range(8):
+            if r[0] != "call":
+                break
+            chain.append(short_name(r[1]))
+            if re.search(r"::query_row(::<.*>)?$", r[1]):
+                # the statement was prepared from the count statement's SQL
+                stmt = pa.root(f, Call(f, r[2]).args[0])
+                sql_ok = False
+                x = stmt
+                for _ in range(8):
+                    if x[0] != "call":
+                        break
+                    if x[1].endswith("build_rusqlite") or "build_rusqlite" in x[1]:
+                        who = _chain_root(m, f, Call(f, x[2]).args[0])
+                        sql_ok = who == _count_stmt_root(m, f)
+                        break
+                    cc = Call(f, x[2])
+                    nxt = None
+                    for a in cc.args[::-1]:
+                        ra = pa.root(f, a)
+                        if ra[0] == "call":
+                            nxt = ra
+                            break
+                    if nxt is None:
+                        break
+                    x = nxt
+                ok = sql_ok
+                break
+            cc = Call(f, r[2])
+            if not cc.args:
+                break
+            r = pv.root(f, cc.args[0])
+        cx.ob("C10.R2", "sqlite:%s:count-source" % c, ok,
+              "SQLite query of `%s`: the reported total is on every path the value returned by the count statement (%s)%s" % (
+                  c, " <- ".join(chain) or root_str(r), "" if ok else " - it is computed some other way on some path (e.g. from the page that was fetched)"), f.loc())
